@@ -13,5 +13,6 @@ import SsqlVerif.Props.C14
 #print axioms C14.when_gating
 #print axioms C14.where_order
 #print axioms C14.field_eq_spec
+#print axioms C14.query_column_eq_spec
 #print axioms C14.oracle_cap_flags
 #print axioms C14.facts_constants
